@@ -341,15 +341,23 @@ def p1_monotonic(ctx, f, effs):
     ld = repo.lookup_method(cls, '_load_data')
     guard = None
     for i in ld.nodes(ast.If):
-        if any(isinstance(s_, ast.Raise) for s_ in i.body) and 'np.diff(self.spike_times)' in unparse(i.test):
+        if any(isinstance(s_, ast.Raise) for s_ in i.body) and 'np.diff(' in unparse(i.test) and ('spike_times' in unparse(i.test) or 'spike_samples' in unparse(i.test)):
             guard = i
     if guard is None:
-        ctx.violated('C04.P1', ld, '_load_data', 'no test rejects non-monotonic spike times (np.diff(self.spike_times) >= 0 ... raise)')
+        ctx.violated('C04.P1', ld, '_load_data', 'no test rejects non-monotonic spike times (np.diff(spike times) >= 0 ... raise)')
         return
     t = unparse(guard.test).replace(' ', '')
-    ok_form = t in ('notnp.all(np.diff(self.spike_times)>=0)', 'np.any(np.diff(self.spike_times)<0)', '(np.diff(self.spike_times)<0).any()')
-    ctx.check(ok_form, 'C04.P1', ld, guard.test, 'decreasing spike times are rejected (equal times allowed)',
-              'the monotonicity test `%s` does not reject exactly the decreasing sequences' % unparse(guard.test))
+    good = ('notnp.all(np.diff(self.spike_times)>=0)', 'np.any(np.diff(self.spike_times)<0)', '(np.diff(self.spike_times)<0).any()',
+            'notnp.all(np.diff(self.spike_samples.astype(np.int64))>=0)', 'np.any(np.diff(self.spike_samples.astype(np.int64))<0)')
+    if t in good:
+        ctx.holds('C04.P1', ld, 'decreasing spike times are rejected (equal times allowed)', guard.test)
+    elif 'np.diff(self.spike_samples)' in t:
+        ctx.violated('C04.P1', ld, guard.test, 'the monotonicity test `%s` takes differences of the spike SAMPLES as stored: for unsigned sample dtypes (uint64 is what KiloSort writes) a '
+                     'backward step wraps to a huge positive number and non-monotonic datasets are accepted' % unparse(guard.test))
+    elif '>0' in t.replace('>=0', '') and 'np.all' in t:
+        ctx.violated('C04.P1', ld, guard.test, 'the monotonicity test `%s` also rejects equal consecutive spike times' % unparse(guard.test))
+    else:
+        ctx.undecided('C04.P1', ld, 'monotonicity test `%s` not recognised' % unparse(guard.test), guard.test)
     first_eff = None
     for e in effs:
         top = e.stack[1][1] if len(e.stack) > 1 and e.stack[1][0].node is ld.node else (e.node if e.fi.node is ld.node else None)
